@@ -323,6 +323,8 @@ def _copy(a, pre):
         y = copy.deepcopy(x)
     else:
         y = pickle.loads(pickle.dumps(x, protocol=int(how[-1])))
+    if a.get("raw"):
+        return y
     r = enc(y)
     if r["k"] == "dur" and hasattr(y, "total_seconds"):
         r["ts"] = proj.f2d3(y.total_seconds())
